@@ -178,7 +178,9 @@ def range_rules(facts, rep):
     ok &= rep.check(good, rule, "constructor-ranges", where(f, f.span), "Ok iff year 1980..=2107, month 1..=12, day 1..=31, hour <= 23, minute <= 59, second <= 60; fields stored unchanged",
                     "from_date_and_time accepts %s; documented ranges are %s" % (seen, DOC))
     # every rejection is caused by a field outside its DOCUMENTED bound; every field can reject; nothing else is consulted
-    errs = [p for p in ps if outcome(p)[0] == "Err"]
+    # (an error built by an inlined range helper and handed on with `?` is the same rejection: the effect test below admits only the
+    # `?` plumbing next to the range tests, so an error coming out of any other call is still "something else rejects")
+    errs = [p for p in ps if outcome(p)[0] in ("Err", "ErrProp")]
     rejecting = set()
     good = len(errs) >= 6 and len(errs) + len(oks) == len(ps)
     # (a path on which an unsigned field "fails" `>= 0` does not exist)
@@ -188,7 +190,7 @@ def range_rules(facts, rep):
     for p in errs:
         acc, rej, other = path_bounds(p)
         real = [(v, lo, hi) for v, lo, hi in rej if v in DOC and lo in (None, DOC[v][0]) and hi in (None, DOC[v][1])]
-        good = good and bool(real) and len(real) == len(rej) and not other and all(e[1].endswith("contains") or e[1].endswith("RangeInclusive::<Idx>::new") for e in p["effects"])
+        good = good and bool(real) and len(real) == len(rej) and not other and all(re.search(r"contains$|RangeInclusive::<Idx>::new$|ops::Try::branch$|FromResidual::from_residual$", e[1]) for e in p["effects"])
         rejecting |= {v for v, _, _ in real}
     good = good and rejecting == set(DOC)
     ok &= rep.check(good, rule, "one-rejection-per-field", where(f, f.span), "each field out of its documented range => Err(()), and nothing else rejects",
@@ -216,7 +218,8 @@ def range_rules(facts, rep):
                 acc, rej, other = path_bounds(p)
                 convfail = [(a_, v_) for a_, v_ in other if a_ == "discr(TryFrom::try_from(OffsetDateTime::year(dt)))" and v_ == 1]
                 other = [x_ for x_ in other if x_ not in convfail and not (x_[0] == "discr(TryFrom::try_from(OffsetDateTime::year(dt)))" and x_[1] == 0)]
-                good = good and outcome(p)[0] == "Err" and (bool(rej) or bool(convfail)) and not other and \
+                good = good and outcome(p)[0] in ("Err", "ErrProp") and (bool(rej) or bool(convfail)) and not other and \
+                    all(re.search(r"OffsetDateTime::|ops::Try::branch$|FromResidual::from_residual$|TryFrom", e[1]) for e in p["effects"]) and \
                     all(v in ("OffsetDateTime::year(dt)", "ok(TryFrom::try_from(OffsetDateTime::year(dt)))") and lo in (None, 1980) and hi in (None, 2107) for v, lo, hi in rej)
         ok &= rep.check(good, rule, "try_from-year-guard", where(t, t.span), "Ok iff 1980 <= dt.year() <= 2107, tested on the very value stored; other fields from the same dt",
                         "TryFrom<OffsetDateTime> guards %s but stores year = %s -- the guard must be on the stored calendar year (offset-local), or impossible years get in" % (
